@@ -10,6 +10,8 @@ mod c07;
 mod c08;
 mod c11;
 mod c12;
+mod c13;
+mod gates;
 mod c14;
 mod c14m;
 mod c15;
@@ -99,6 +101,7 @@ const CHECKS: &[(&str, CheckFn)] = &[
     ("C10", redir::c10),
     ("C11", c11::c11),
     ("C12", c12::c12),
+    ("C13", c13::c13),
     ("C14", c14m::c14),
     ("C15", c15::c15),
     ("C16", c16::c16),
@@ -120,6 +123,7 @@ const REPLAYERS: &[(&str, ReplayFn)] = &[
     ("c10", redir::replay10),
     ("c11", c11::replay),
     ("c12", c12::replay),
+    ("c13", c13::replay),
     ("c14", c14m::replay),
     ("c15", c15::replay),
     ("c16", c16::replay),
